@@ -43,19 +43,29 @@ func (s *state) errorf(format string, args ...interface{}) {
 	panic(s.errFromNode(format, args...))
 }
 
+// templateName returns the name of the template being executed, or "" when a
+// standalone expression is evaluated (there is no template then).
+func (s *state) templateName() string {
+	if s.tmpl.Node == nil {
+		return ""
+	}
+	return s.tmpl.Node.Name
+}
+
 func (s *state) errFromNode(format string, args ...interface{}) error {
+	var name = s.templateName()
 	return errortypes.NewErrFilePosf(
-		s.registry.Filename(s.tmpl.Node.Name),
-		s.registry.LineNumber(s.tmpl.Node.Name, s.node),
-		s.registry.ColNumber(s.tmpl.Node.Name, s.node),
+		s.registry.Filename(name),
+		s.registry.LineNumber(name, s.node),
+		s.registry.ColNumber(name, s.node),
 		format,
 		args...,
 	)
 }
 
 func (s *state) callAnnotation() string {
-	return fmt.Sprintf("template %s:%d", s.tmpl.Node.Name,
-		s.registry.LineNumber(s.tmpl.Node.Name, s.node))
+	var name = s.templateName()
+	return fmt.Sprintf("template %s:%d", name, s.registry.LineNumber(name, s.node))
 }
 
 // errRecover is the handler that turns panics into returns from the top
